@@ -641,7 +641,10 @@ class FTPFS(FS):
             size_str = facts.get("size", facts.get("sizd", "0"))
             size = 0
             if size_str.isdigit():
-                size = int(size_str)
+                try:
+                    size = int(size_str)
+                except ValueError:  # e.g. superscript digits
+                    size = 0
             details["size"] = size
             if "modify" in facts:
                 details["modified"] = cls._parse_ftp_time(facts["modify"])
